@@ -55,8 +55,8 @@ type historyCase struct {
 
 func runHistory(rep *vh.Report, env vh.Env, stacks []*stack, only int) {
 	n := env.Pick(160, 3000)
-	introBad := []int{2, 3, 6, 7, 5} // active-false, 400-revoked, 429, 500, 401
-	refrBad := []int{2, 3, 4, 5}     // 400-revoked, 400-other, 429, 500
+	introBad := []int{vcls("400-revoked"), vcls("400-other"), vcls("401"), vcls("403"), vcls("429"), vcls("500"), vcls("503")}
+	refrBad := []int{rcls("400-revoked"), rcls("400-other"), rcls("429"), rcls("500"), rcls("503")}
 	vh.ForEach(n, 0, only, func(i int) {
 		r := vh.CaseRNG(env.Seed, streamHistory, i)
 		st := stacks[i%len(stacks)]
@@ -83,7 +83,7 @@ func runHistory(rep *vh.Report, env vh.Env, stacks []*stack, only int) {
 		visits := 2 + r.Intn(5)
 		earlierSuccess, earlierRefusal := false, false
 		prevGood := false
-		desc := "H|" + st.kind + "|v=" + stampNames[vs] + "|g=" + stampNames[gs]
+		desc := "H|" + st.prov + "|" + st.kind + "|v=" + stampNames[vs] + "|g=" + stampNames[gs]
 		defer func() {
 			rep.Distinct(desc)
 			if i%53 == 0 {
@@ -93,7 +93,7 @@ func runHistory(rep *vh.Report, env vh.Env, stacks []*stack, only int) {
 		for k := 0; k < visits; k++ {
 			cs := as.OpenCookie(held)
 			if cs == nil {
-				rep.Violate(streamHistory, i, "sign_in: reissued-cookie-does-not-open", "the cookie re-issued by the previous visit does not open", kc)
+				st.violate(rep, streamHistory, i, "sign_in: reissued-cookie-does-not-open", "the cookie re-issued by the previous visit does not open", kc)
 				return
 			}
 			gap := time.Duration(0)
@@ -130,7 +130,8 @@ func runHistory(rep *vh.Report, env vh.Env, stacks []*stack, only int) {
 			}
 			newTok := fmt.Sprintf("hat-%s-%d-%s", tag, k+1, b64word(r, 8+r.Intn(200)))
 			ansName := ""
-			key, endpoint := cs.AccessToken, "introspect"
+			valEP := st.valEndpoint()
+			key, endpoint := cs.AccessToken, valEP
 			if due {
 				key, endpoint = cs.RefreshToken, "refresh"
 				c := r.Intn(2)
@@ -138,16 +139,19 @@ func runHistory(rep *vh.Report, env vh.Env, stacks []*stack, only int) {
 					c = refrBad[r.Intn(len(refrBad))]
 				}
 				ansName = refreshClasses[c].name
-				as.IdP.Set("refresh", key, refreshAnswer(c, newTok, "", []int64{3600, 1800}[r.Intn(2)]))
+				as.IdP.Set("refresh", key, refreshAnswer(st.prov, c, newTok, "", []int64{3600, 1800}[r.Intn(2)]))
 				// the old access token is dead at the IdP either way
-				as.IdP.Set("introspect", cs.AccessToken, sut.IntrospectOK(false))
+				as.IdP.Set(valEP, cs.AccessToken, validateAnswer(st.prov, vcls("401"), email))
 			} else {
 				c := r.Intn(2)
 				if !good {
 					c = introBad[r.Intn(len(introBad))]
+					if st.prov == "okta" && r.Intn(3) == 0 {
+						c = vcls("200-negative-body") // {"active":false}
+					}
 				}
-				ansName = introspectClasses[c].name
-				as.IdP.Set("introspect", key, introspectAnswer(c))
+				ansName = validateClasses[c].name
+				as.IdP.Set(valEP, key, validateAnswer(st.prov, c, email))
 				as.IdP.Set("refresh", cs.RefreshToken, sut.OktaRevoked())
 			}
 			redirect := "https://app.sso.test/oauth2/callback"
@@ -157,10 +161,10 @@ func runHistory(rep *vh.Report, env vh.Env, stacks []*stack, only int) {
 			took := time.Since(t0)
 			rep.Eval()
 			calls := as.IdP.Calls(endpoint, key) // the log delta of this visit (forgotten afterwards)
-			as.IdP.Unset("introspect", cs.AccessToken)
+			as.IdP.Unset(valEP, cs.AccessToken)
 			as.IdP.Unset("refresh", cs.RefreshToken)
 			if due {
-				as.IdP.Calls("introspect", cs.AccessToken)
+				as.IdP.Calls(valEP, cs.AccessToken)
 			} else {
 				as.IdP.Calls("refresh", cs.RefreshToken)
 			}
@@ -196,17 +200,18 @@ func runHistory(rep *vh.Report, env vh.Env, stacks []*stack, only int) {
 
 			if !issued {
 				if carriesCode(as, rs.Location(), string(rs.Body)) || mentionsCodeParam(rs.Location(), string(rs.Body)) {
-					rep.Violate(streamHistory, i, "sign_in: code-outside-302-redirect history="+hist, "a refusal carries a code; "+detail, kc)
+					st.violate(rep, streamHistory, i, "sign_in: code-outside-302-redirect history="+hist, "a refusal carries a code; "+detail, kc)
 					return
 				}
 				if !(rs.Status == 200 || rs.Status >= 400) {
-					rep.Violate(streamHistory, i, fmt.Sprintf("sign_in: refusal-neither-page-nor-error status=%d", rs.Status), detail, kc)
+					st.violate(rep, streamHistory, i, fmt.Sprintf("sign_in: refusal-neither-page-nor-error status=%d", rs.Status), detail, kc)
 					return
 				}
 				if good {
 					rep.Count("history_refused_although_allowed", 1) // one-directional: not judged
 				} else {
 					rep.Count("history_refused", 1)
+					rep.Count("history_"+st.prov+"_refused_"+path+"_"+ansName, 1)
 					if earlierSuccess {
 						rep.Count("history_refused_after_earlier_success_path_"+path, 1)
 						if gap < time.Minute && heldKind == "reissued-by-previous-visit" {
@@ -236,15 +241,16 @@ func runHistory(rep *vh.Report, env vh.Env, stacks []*stack, only int) {
 			}
 			switch {
 			case !confirmedCall && (len(calls) == 0 || good):
-				rep.Violate(streamHistory, i, "sign_in: code-issued-without-idp-confirmation path="+path+" history="+hist,
+				st.violate(rep, streamHistory, i, "sign_in: code-issued-without-idp-confirmation path="+path+" history="+hist,
 					"code issued although the IdP's call log shows no confirming "+endpoint+" call for the session's token during this visit; "+detail, kc)
 				return
 			case !good:
-				rep.Violate(streamHistory, i, "sign_in: code-issued failing="+path+"-not-confirmed history="+hist,
+				st.violate(rep, streamHistory, i, "sign_in: code-issued failing="+path+"-not-confirmed history="+hist,
 					"code issued although the IdP refused the session's token during this visit; "+detail, kc)
 				return
 			}
 			rep.Count("history_code_via_"+path, 1)
+			rep.Count("history_"+st.prov+"_code_via_"+path, 1)
 			if earlierSuccess {
 				rep.Count("history_code_after_earlier_success", 1)
 			}
@@ -253,7 +259,7 @@ func runHistory(rep *vh.Report, env vh.Env, stacks []*stack, only int) {
 				wantTok = newTok
 			}
 			if cc := as.OpenCode(code); cc == nil || cc.Email != email || cc.AccessToken != wantTok || cc.LifetimeDeadline.After(cs.LifetimeDeadline) {
-				rep.Violate(streamHistory, i, "sign_in: code-carries-unconfirmed-token path="+path+" history="+hist,
+				st.violate(rep, streamHistory, i, "sign_in: code-carries-unconfirmed-token path="+path+" history="+hist,
 					"the code does not open to this browser's e-mail, the token the IdP confirmed during this visit and an unextended lifetime; "+detail, kc)
 				return
 			}
@@ -261,7 +267,7 @@ func runHistory(rep *vh.Report, env vh.Env, stacks []*stack, only int) {
 			if set && !cleared {
 				ns := as.OpenCookie(v)
 				if ns == nil || ns.Email != email || ns.AccessToken != wantTok || ns.LifetimeDeadline.After(cs.LifetimeDeadline) {
-					rep.Violate(streamHistory, i, "sign_in: reissued-cookie-inconsistent path="+path+" history="+hist,
+					st.violate(rep, streamHistory, i, "sign_in: reissued-cookie-inconsistent path="+path+" history="+hist,
 						"the re-issued cookie does not carry this browser's e-mail, the confirmed token and an unextended lifetime; "+detail, kc)
 					return
 				}
